@@ -40,6 +40,13 @@ type Case struct {
 	PQ bool `json:"persisted_query,omitempty"`
 	// WS, for Via "api": the socket variant on which the case fails (nil: HTTP, or try the default).
 	WS *WSVariant `json:"ws,omitempty"`
+	// Before: a history. The same request was first sent, in this order, under each of these feature
+	// sets to the SAME long-lived schema (or API) object — through every entry point that takes the
+	// query text — before the request under F that is compared with the erased schema.
+	Before [][]string `json:"before,omitempty"`
+	// Pad: further feature names the request on S enables — names the schema never mentions, or
+	// repetitions of names in F. The expected answer is still that of erase(S,F).
+	Pad []string `json:"pad,omitempty"`
 }
 
 type harness struct {
@@ -47,6 +54,8 @@ type harness struct {
 	model    *hx.Model
 	perClass map[string]int
 	wsCount  int
+	// extra: fixed requests checkSpec sends next to the probes and the generated documents
+	extra []query
 }
 
 const obPrevalidated = "oracle: a document validated with all features and executed under F (Request.Document) never reaches a gated resolver"
@@ -102,6 +111,35 @@ type pairEnv struct {
 	plainW *world
 	// overlap is the worlds' overlap mode for the next differential
 	overlap bool
+	// before is the history of the next differential (Case.Before): S is then a fresh schema object
+	// that has served the same request under these feature sets first
+	before [][]string
+	// pad (Case.Pad): feature names the schema never mentions (or repetitions of enabled ones) that the
+	// request on S enables next to F — they must change nothing
+	pad []string
+}
+
+// reqF is the feature list of the request sent to S: F and the padding.
+func (e *pairEnv) reqF() []string {
+	return append(append([]string(nil), e.F...), e.pad...)
+}
+
+// warmUp rebuilds S and sends q to it under each feature set of the history, through graphql.Execute
+// and (for subscriptions) graphql.Subscribe with the query text.
+func (e *pairEnv) warmUp(q *query, respect bool, seed uint64) {
+	w := &world{orig: e.origX, F: fset(e.F)}
+	full, err := buildSchema(e.orig, w)
+	if err != nil {
+		return
+	}
+	e.full, e.fullW = full, w
+	w.respect, w.seed, w.overlap = respect, seed, e.overlap
+	for _, G := range e.before {
+		w.F = fset(G)
+		runQuery(e.full, w, G, q)
+		runSubscribe(e.full, w, G, q)
+	}
+	w.F = fset(e.F)
 }
 
 func newPairEnv(spec *Spec, F []string) (*pairEnv, error) {
@@ -126,13 +164,25 @@ func newPairEnv(spec *Spec, F []string) (*pairEnv, error) {
 
 // differential evaluates the property on one query. It returns "" when it holds.
 func (e *pairEnv) differential(q *query, respect bool, seed uint64) (what string, a, b outcome) {
+	if len(e.before) > 0 {
+		e.warmUp(q, respect, seed)
+	}
 	for _, w := range []*world{e.fullW, e.erasedW, e.plainW} {
 		w.respect, w.seed, w.overlap = respect, seed, e.overlap
 	}
-	a = runQuery(e.full, e.fullW, e.F, q)
+	a = runQuery(e.full, e.fullW, e.reqF(), q)
 	b = runQuery(e.erased, e.erasedW, e.all, q)
 	if what, a, b = e.compare(q, a, b, e.erased, e.erasedW, e.all, "erased schema"); what != "" {
 		return what, a, b
+	}
+	// graphql.Subscribe with the query text (the subscribe step of a subscription operation)
+	if sa, sb := runSubscribe(e.full, e.fullW, e.reqF(), q), runSubscribe(e.erased, e.erasedW, e.all, q); sa.Resp != sb.Resp || strings.Join(sa.Log, ",") != strings.Join(sb.Log, ",") {
+		if len(e.before) > 0 {
+			e.warmUp(q, respect, seed)
+		}
+		if sa2 := runSubscribe(e.full, e.fullW, e.reqF(), q); sa2.Resp != sb.Resp || strings.Join(sa2.Log, ",") != strings.Join(sb.Log, ",") {
+			return fmt.Sprintf("graphql.Subscribe differs: under F=%v %s log=%v ; erased schema %s log=%v", e.F, clip(sa.Resp), sa.Log, clip(sb.Resp), sb.Log), a, b
+		}
 	}
 	c := runQuery(e.plain, e.plainW, nil, q)
 	what, a, _ = e.compare(q, a, c, e.plain, e.plainW, nil, "erased schema without requirements, no features")
@@ -153,7 +203,7 @@ func (e *pairEnv) compare(q *query, a, b outcome, ref *built, refW *world, refF 
 		// Go map iteration may pick a different one of several equally valid errors (merge check,
 		// argument coercion): only call it a difference when it is stable.
 		for i := 0; i < 6; i++ {
-			a2 := runQuery(e.full, e.fullW, e.F, q)
+			a2 := runQuery(e.full, e.fullW, e.reqF(), q)
 			b2 := runQuery(ref, refW, refF, q)
 			if a2.Resp == b.Resp || b2.Resp == a.Resp || a2.Resp == b2.Resp {
 				return "", a, b
@@ -214,6 +264,7 @@ func failsSame(c *Case) string {
 		q.Vars = c.Doc.Vals
 	}
 	env.overlap = c.Overlap
+	env.before, env.pad = c.Before, c.Pad
 	what, _, _ := env.differential(&q, c.Respect, c.Seed)
 	return what
 }
@@ -648,19 +699,41 @@ func (h *harness) checkSpec(spec *Spec, r *hx.Rand, nDocs int, sample bool) {
 			d := genDoc(r.Fork(), origX, G)
 			qs = append(qs, query{Kind: "doc", Label: "doc", Text: d.text(), Vars: d.Vals, doc: d})
 		}
+		for _, q := range h.extra {
+			if q.Kind == "doc" {
+				q.Kind = "fixed" // a document without a generator tree (no walk tie, no document statistics)
+			}
+			qs = append(qs, q)
+		}
 		for qi := range qs {
 			q := &qs[qi]
 			respect := r.Chance(1, 2)
 			seed := r.Uint64()
 			env.overlap = q.Kind == "doc" && r.Chance(1, 2)
 			overlap := env.overlap
+			// histories: a third of the requests reach a schema object that has already served the same
+			// request under other feature sets (all features first / none first / a few of the others)
+			var before [][]string
+			if len(fsets) > 1 && r.Chance(1, 3) {
+				before = drawHistory(r, fsets, F)
+				run.Count("history:requests-after-other-feature-sets")
+			}
+			env.before = before
+			// a quarter of the requests on S enable, next to F, feature names the schema never mentions
+			// (one of them extending a real name) or repeat an enabled name
+			var pad []string
+			if os.Getenv("C13_PAD") != "" && r.Chance(1, 4) {
+				pad = drawPad(r, feats, F)
+				run.Count("request:padded-feature-set")
+			}
+			env.pad = pad
 			what, a, _ := env.differential(q, respect, seed)
-			env.overlap = false
+			env.overlap, env.before, env.pad = false, nil, nil
 			run.Count("query:" + q.Kind)
 			if h.model != nil && q.Kind == "doc" {
 				h.tieWalk(env, spec, F, q, a)
 			}
-			if q.Kind == "doc" && what == "" && !rootHidden(spec, F) {
+			if (q.Kind == "doc" || q.Kind == "fixed") && what == "" && !rootHidden(spec, F) {
 				if log, ok := runPrevalidated(env.full, env.fullW, env.all, F, q); ok {
 					run.Count("doc:prevalidated-with-all-features")
 					g := gatedCalls(origX, fset(F), log)
@@ -704,7 +777,7 @@ func (h *harness) checkSpec(spec *Spec, r *hx.Rand, nDocs int, sample bool) {
 			key := hx.Hash(canonSpec(origX) + "|" + strings.Join(F, ",") + "|" + q.Text)
 			run.Case(key, gatedSomething)
 			if what != "" {
-				if h.reportOracle(&Case{Spec: spec.clone(), F: F, Query: *q, Respect: respect, Overlap: overlap, Seed: seed, Doc: q.doc}, what) != "" {
+				if h.reportOracle(&Case{Spec: spec.clone(), F: F, Query: *q, Respect: respect, Overlap: overlap, Seed: seed, Doc: q.doc, Before: before, Pad: pad}, what) != "" {
 					what = "" // an open known finding, reported as such
 				}
 			}
@@ -720,6 +793,54 @@ func (h *harness) checkSpec(spec *Spec, r *hx.Rand, nDocs int, sample bool) {
 		}
 	}
 	_ = nontrivial
+}
+
+// drawHistory picks the feature sets under which a request is sent first: all features, none, or up to
+// three of the other sets in random order.
+func drawHistory(r interface{ Intn(int) int }, fsets [][]string, F []string) [][]string {
+	var others [][]string
+	for _, G := range fsets {
+		if strings.Join(G, ",") != strings.Join(F, ",") {
+			others = append(others, G)
+		}
+	}
+	if len(others) == 0 {
+		return nil
+	}
+	largest, smallest := others[0], others[0]
+	for _, G := range others {
+		if len(G) > len(largest) {
+			largest = G
+		}
+		if len(G) < len(smallest) {
+			smallest = G
+		}
+	}
+	switch r.Intn(4) {
+	case 0, 1:
+		return [][]string{largest}
+	case 2:
+		return [][]string{smallest}
+	}
+	n := 1 + r.Intn(3)
+	var out [][]string
+	for i := 0; i < n; i++ {
+		out = append(out, others[r.Intn(len(others))])
+	}
+	return out
+}
+
+// drawPad: feature names that are not features of the schema (a fresh one, one that extends a real
+// feature name, the empty name) and possibly a repetition of a name in F.
+func drawPad(r *hx.Rand, feats, F []string) []string {
+	out := []string{hx.Pick(r, []string{"zz", "A", ""})}
+	if len(feats) > 0 && r.Chance(1, 2) {
+		out = append(out, hx.Pick(r, feats)+"x")
+	}
+	if len(F) > 0 && r.Chance(1, 2) {
+		out = append(out, hx.Pick(r, F))
+	}
+	return out
 }
 
 func dropRC2(lines []string) []string {
@@ -1006,9 +1127,10 @@ func (h *harness) replayCase(c *Case, verbose bool) (what string) {
 	}
 	q := c.Query
 	env.overlap = c.Overlap
+	env.before, env.pad = c.Before, c.Pad
 	w, a, b := env.differential(&q, c.Respect, c.Seed)
 	if verbose {
-		fmt.Printf("schema:\n%s\nfeatures: %v\nquery (%s): %s\nvars: %v\n", canonSpec(env.origX), c.F, q.Label, q.Text, q.Vars)
+		fmt.Printf("schema:\n%s\nfeatures: %v\nhistory (same request on the same schema object first under): %v\nquery (%s): %s\nvars: %v\n", canonSpec(env.origX), c.F, c.Before, q.Label, q.Text, q.Vars)
 		fmt.Printf("response(S, F, q)               = %s\n  log=%v panic=%q\n", a.Resp, a.Log, a.Panic)
 		fmt.Printf("response(erase(S,F), all, q)    = %s\n  log=%v panic=%q\n", b.Resp, b.Log, b.Panic)
 		fmt.Printf("oracle: %q\n", w)
@@ -1031,11 +1153,12 @@ func (h *harness) replayAPI(c *Case, verbose bool) string {
 	}
 	q := c.Query
 	var all []string
+	warmUpAPI(full, fw, c.Before, Fm, &q)
 	a := serveHTTP(full, fw, c.F, &q)
 	b := serveHTTP(erased, ew, all, &q)
 	what := compareOutcomes(origX, c.F, a, b)
 	if verbose {
-		fmt.Printf("schema:\n%s\nfeatures: %v\nquery: %s\n", canonSpec(origX), c.F, q.Text)
+		fmt.Printf("schema:\n%s\nfeatures: %v\nhistory (same request on the same API first under): %v\nquery: %s\n", canonSpec(origX), c.F, c.Before, q.Text)
 		fmt.Printf("HTTP response(S, F, q)            = %s log=%v\n", a.Resp, a.Log)
 		fmt.Printf("HTTP response(erase(S,F), all, q) = %s log=%v\n", b.Resp, b.Log)
 	}
@@ -1142,26 +1265,43 @@ func main() {
 			run.Violate("property", "corpus case "+f+": "+what, classify(&c, what), false, &c)
 		}
 	}
+	const staged = true
 	for _, spec := range handSpecs() {
 		h.checkSpec(spec, run.Rand.Fork(), run.Scale(6, 30), false)
 		run.Count("hand-written-schema")
+		// the same definition put together in stages (Spec.Staged): features assigned after the wrappers
+		// exist / on a clone
+		for mode := 1; staged && mode <= 2; mode++ {
+			sp := spec.clone()
+			sp.Staged = mode
+			h.checkSpec(sp, run.Rand.Fork(), run.Scale(2, 10), false)
+			run.Count(fmt.Sprintf("staged-definition:%d", mode))
+		}
 	}
 	n := run.Scale(200, 3000)
 	nDocs := run.Scale(10, 20)
 	for i := 0; i < n; i++ {
 		r := run.Rand.Fork()
 		spec := genSpec(r)
+		if staged {
+			spec.Staged = i % 3
+			run.Count(fmt.Sprintf("staged-definition:%d", spec.Staged))
+		}
 		h.checkSpec(spec, r, nDocs, i < 40)
 	}
 	// the construction-rule oracle: every fixed leaky definition must be refused
-	for _, spec := range leakySpecs() {
-		w := &world{orig: expand(spec), F: map[string]bool{}}
-		_, err := buildSchema(spec, w)
-		_, unbuildable := err.(*buildError)
-		ok := err != nil && !unbuildable
-		run.Count("leaky-definition")
-		run.Oblige("oracle: schema.New refuses every definition in which an element exposes a type needing more features than its owner (with and without defaults)", "oracle", 1, ok, fmt.Sprintf("accepted (or not expressible: %v): %s", err, canonSpec(expand(spec))))
-		h.checkSpec(spec, run.Rand.Fork(), 4, false) // ties Accepted; if the library accepts it, looks for the failing request
+	for _, spec0 := range leakySpecs() {
+		for mode := 0; mode <= 2 && (staged || mode == 0); mode++ {
+			spec := spec0.clone()
+			spec.Staged = mode // however the definition is put together
+			w := &world{orig: expand(spec), F: map[string]bool{}}
+			_, err := buildSchema(spec, w)
+			_, unbuildable := err.(*buildError)
+			ok := err != nil && !unbuildable
+			run.Count("leaky-definition")
+			run.Oblige("oracle: schema.New refuses every definition in which an element exposes a type needing more features than its owner (with and without defaults)", "oracle", 1, ok, fmt.Sprintf("accepted (or not expressible: %v) staged=%d: %s", err, mode, canonSpec(expand(spec))))
+			h.checkSpec(spec, run.Rand.Fork(), 4, false) // ties Accepted; if the library accepts it, looks for the failing request
+		}
 	}
 	// fixed API-layer schemas with exactly one kind of gated element, and fixed requests using it
 	for _, ac := range singleGateAPICases() {
@@ -1180,10 +1320,30 @@ func main() {
 			}
 			return out
 		}
-		if h.checkAPI(ac.spec, r, qs, ac.withWS) {
+		// the same fixed schema and requests through graphql.Execute, with all the model ties
+		h.extra = ac.queries
+		h.checkSpec(ac.spec, run.Rand.Fork(), 3, false)
+		h.extra = nil
+		// both socket sub-protocols for every one of them
+		if h.checkAPI(ac.spec, r, qs, true) {
 			run.Count("api:single-gate-schema")
 		} else {
 			run.Oblige("fixed API schema mounts: "+ac.name, "oracle", 1, false, "cannot be mounted on apifu.Config")
+		}
+		// the same definition put together in stages: features assigned after the wrappers exist (1), or
+		// by the API's PreprocessGraphQLSchemaDefinition hook on the clone it is handed (2)
+		for mode := 1; staged && mode <= 2; mode++ {
+			sp := ac.spec.clone()
+			sp.Staged = mode
+			h.extra = ac.queries
+			h.checkSpec(sp, run.Rand.Fork(), 1, false)
+			h.extra = nil
+			fixedOnly := func(F []string) []query {
+				return append([]query{{Kind: "probe", Label: "schema-types", Text: schemaProbe}, {Kind: "probe", Label: "full-introspection", Text: string(introspectionQueryText)}}, ac.queries...)
+			}
+			if h.checkAPI(sp, r, fixedOnly, false) {
+				run.Count(fmt.Sprintf("api:staged-definition:%d", mode))
+			}
 		}
 	}
 	// the same property through the application layer (feature-set plumbing of api.go / graphqlws.go)
@@ -1199,6 +1359,9 @@ func main() {
 		}
 		if i%3 == 1 && spec.Subscription == "" {
 			continue // every third one has a subscription root (events over the sockets)
+		}
+		if staged {
+			spec.Staged = i % 3
 		}
 		if _, err := buildSchema(spec, &world{orig: expand(spec), F: map[string]bool{}}); err != nil {
 			continue
